@@ -83,7 +83,11 @@ pub fn malformed_shapes(f: Family, head: &[u8]) -> Vec<Vec<u8>> {
         // <kind> <session id> ..: an undefined kind with the right session id
         Family::Gs3 | Family::Jc2m => v.extend(with(0, 0x7f)),
         // 00 <echoed request id> ..: a wrong delimiter byte
-        Family::Gs2 => v.extend(with(0, 0x7f)),
+        Family::Gs2 => {
+            v.extend(with(0, 0x7f));
+            // 00 <another request id> ..: the answer to a request that was not sent
+            v.extend(with(4, 0x02));
+        }
         // 80 00 00 00 <kind>: an undefined reply kind
         Family::Unreal2 => v.extend(with(4, 0x7f)),
         // 1C ..: not an unconnected pong
